@@ -384,6 +384,15 @@ func (ms *Modules) Process() []error {
 	// the errors.
 	for _, m := range mods {
 		ToEntry(m).Augment(true)
+	}
+
+	// Augmentation records its errors (a target that was never found, a
+	// node that already exists in the target) on entries of whichever
+	// module they concern, so every tree is swept again.
+	for _, m := range ms.Modules {
+		errs = append(errs, ToEntry(m).GetErrors()...)
+	}
+	for _, m := range ms.SubModules {
 		errs = append(errs, ToEntry(m).GetErrors()...)
 	}
 
